@@ -19,7 +19,10 @@ def call(d, a, pals, form="direct"):
         kw = {c: pals[c].value(v) for c, v in a["kv"]}
         return getattr(d, op[:-3])(**kw)
     if op in ("slice", "slice_off"):
-        return getattr(d, op)(list(a["idx"]))
+        idx = list(a["idx"])
+        if form == "range" and idx and idx == list(range(idx[0], idx[-1] + 1)):
+            return getattr(d, op)(range(idx[0], idx[-1] + 1))        # the same positions given as a range object
+        return getattr(d, op)(idx)
     if op in ("head", "tail", "sample"):
         return getattr(d, op)(a["n"])
     if op in ("drop_na", "unique"):
@@ -136,7 +139,8 @@ def run_machine(ctx, which, ops, trace_module="FrameOpsTrace"):
                 if not supported(fr, a, pals):
                     ctx.skip("kv value not representable in the chosen palette")
                     continue
-                forms = ["direct", "callable"] if a["op"] in ("filter", "filter_out") else ["direct"]
+                forms = ["direct", "callable"] if a["op"] in ("filter", "filter_out") else \
+                    (["direct", "range"] if a["op"] in ("slice", "slice_off") else ["direct"])
                 for form in forms:
                     rec = execute(fr, a, pals, form)
                     records.append(rec)
@@ -168,6 +172,21 @@ def run_machine(ctx, which, ops, trace_module="FrameOpsTrace"):
         meta.append((pals, "direct"))
         opcount["mix:" + a["op"]] = opcount.get("mix:" + a["op"], 0) + 1
         ctx.count((repr(fr), repr(a), p.name, q.name, "mix"), frames.nontrivial(fr))
+    # twins: -0.0 next to 0.0 (one class, two representations) under the float/inf palette in both key columns
+    for fr in frs:
+        if len(fr["cell"]["k"]) < 2 or (2 not in fr["cell"]["k"] and 2 not in fr["cell"]["j"]):
+            continue
+        if quick and rng.random() < 0.7:
+            continue
+        tw = frames.with_twins(rng, fr)
+        pals = {"k": gamma.FLOAT_INF, "j": gamma.FLOAT_INF, "r": frames.ROWID}
+        a = ({"op": "sort", "keys": ["k", "j"], "dirs": [rng.choice([1, -1]), 1]} if which == "sort" else
+             {"op": rng.choice(["unique", "unique", "drop_na"]), "cols": rng.choice([["k", "j"], ["k"], ["j"]])})
+        rec = execute(tw, a, pals)
+        records.append(rec)
+        meta.append((pals, "direct"))
+        opcount["twin:" + a["op"]] = opcount.get("twin:" + a["op"], 0) + 1
+        ctx.count((repr(tw), repr(a), "twin"), True)
     # record -> validate direction: larger random frames (4..24 rows, many ties), random arguments,
     # judged by the same trace spec; reaches size-dependent code paths (e.g. sort kernels) the
     # exhaustive <= 3-row space cannot
@@ -213,6 +232,8 @@ def run_machine(ctx, which, ops, trace_module="FrameOpsTrace"):
 
 def run(ctx):
     run_machine(ctx, "subset", OPS_SUBSET)
+    from props import c01
+    c01.histories_for(ctx, "C02", 300 if ctx.tier == "quick" else 4000)
 
 
 def replay(ctx, rp, trace_module="FrameOpsTrace"):
